@@ -56,6 +56,17 @@ func Drive[P any](t *testing.T, rec *Rec, gen func(*rapid.T) P, run func(P) *Fai
 		ReplayOnly(t, rec, run)
 		return
 	}
+	// rapid.Check ends with FailNow (runtime.Goexit) whenever the test is marked failed - also when only
+	// the race detector marked it - so "the generated run finished without a violation of ours" is
+	// recorded here, in a deferred call, for Finish.
+	failed := false
+	defer func() {
+		if !failed {
+			rec.mu.Lock()
+			rec.driveOK = true
+			rec.mu.Unlock()
+		}
+	}()
 	rapid.Check(t, func(rt *rapid.T) {
 		plan := gen(rt)
 		rec.Eval(1)
@@ -67,6 +78,7 @@ func Drive[P any](t *testing.T, rec *Rec, gen func(*rapid.T) P, run func(P) *Fai
 			rec.KnownHit(f.Known)
 			return
 		}
+		failed = true
 		p := rec.Violation("rapid", f.Kind, f.Detail, plan, f.Extra)
 		rt.Fatalf("%s: %s (record %s)", f.Kind, f.Detail, p)
 	})
